@@ -110,6 +110,10 @@ func (r *runner) doReady(sc RScenario) {
 			nontrivial = true
 			r.res.Hit("ready:parked-at-hook")
 		}
+		if e == "rpark" {
+			nontrivial = true
+			r.res.Hit("ready:run-held-between-close-and-unlock")
+		}
 	}
 	r.res.Count("ready:"+sc.String(), nontrivial)
 	r.res.Hit("ready:scenarios")
@@ -141,8 +145,8 @@ func canonical(sc RScenario) RScenario {
 	var head, tail []ROp
 	for _, op := range sc.Ops {
 		switch op.Op {
-		case "run":
-			head = append([]ROp{op}, head...)
+		case "run", "runp":
+			head = append([]ROp{{Op: "run"}}, head...)
 		case "ok", "fail":
 			if len(head) < 2 {
 				head = append(head, op)
@@ -344,6 +348,8 @@ func main() {
 					}
 					r.doReady(buildOrder(order, reply, park == 1))
 				}
+				// the same order with Run held between close(readyCh) and Unlock
+				r.doReady(buildOrderH(order, reply, false, true))
 			}
 		}
 	}
